@@ -146,7 +146,7 @@ class Builder:
 
 
 def gen_program(rng, dim, opts=None):
-    """Returns (prog, input_shapes).  opts: p_bn, unsupported ('add_cat' | 'dw_cat' | None),
+    """Returns (prog, input_shapes).  opts: p_bn, unsupported ('add_cat' | 'dw_cat' | 'reuse_cat' | None),
     two_inputs, tcat, squeeze."""
     o = dict(opts or {})
     b = Builder(rng, dim, o)
@@ -379,6 +379,25 @@ def gen_program(rng, dim, opts=None):
         a = b.conv(cur, keep_size=True)
         y = b.add(('cat', [a, cur]), b.ch[a] + b.ch[cur], b.sp[cur])
         cur = b.conv(y, dw=True)
+    elif unsup == 'reuse_cat':
+        # a layer invoked twice whose call sites are fed by channel concats: the concat cuts the sharing graph, the
+        # tensors fed to the two call sites keep independent maskers (same root as K9)
+        a1 = b.conv(cur, keep_size=True)
+        y1 = b.add(('cat', [a1, cur]), b.ch[a1] + b.ch[cur], b.sp[cur])
+        a2 = b.conv(cur, cout=b.ch[a1], keep_size=True)
+        y2 = b.add(('cat', [a2, cur]), b.ch[a2] + b.ch[cur], b.sp[cur])
+        g = b.conv(y1, keep_size=True, p_bn=0)
+        gnode = g
+        while b.prog[gnode][0] != 'conv':
+            gnode -= 1
+        src2 = y2
+        if dim == 1:
+            src2 = b.add(('reuse', y2, gnode - 1), b.ch[y2], b.sp[y2])
+            b.taint[-1] = True
+        g2 = b.add(('reuse', src2, gnode), b.ch[g], b.sp[g])
+        g2 = b.add(('relu', g2), b.ch[g], b.sp[g])
+        cur = b.add(('cat', [g, g2]), 2 * b.ch[g], b.sp[g])
+        cur = b.conv(cur)
     nd = dim + 2            # rank of the activations
     if o.get('squeeze'):
         # global pooling, then the size-1 axes squeezed away (dims given from either end)
